@@ -166,4 +166,25 @@ TEXT = {
                 "chain is handled by induction on the parent link (a parent is summarised by parent_has / parent_value). One genuine defect found by these contracts was repaired in /repo (D8).",
         "technique": "contract-based deductive verification: own VC generator over the real source + z3/cvc5",
     },
+    "C01": {
+        "level": "Hash-input completeness: fn_code_hash and its nested hash_if_code_object (the real source) are proved to serialise into the hashed text, for the innermost function behind any decorator "
+                 "chain, every behavioural attribute of the code object that the property names -- bytecode (base64), names, variable / free / cell names, argument counts, flags, and the constants "
+                 "recursively (nested code objects through the same function, other constants by their own rendering, in order) -- so two functions differing in any of them feed different text to the "
+                 "hash. In-process staleness: MementoFunction._update_dependencies uses a cached version only when NO collected rule reports a change and did_change of the four rule kinds is exact "
+                 "(contracts of C13). Version in the key: FunctionReference.__init__ puts '#version' into the qualified name under which results are stored (contracts of C12).",
+        "note": "Partial: 'equals un-memoized execution' for whole programs and the exactness of the collected rule set (dependency analysis) are not claimed. Known finding (genuine, not repaired): default "
+                "values of positional and keyword-only parameters are not hashed. Assumed: json.dumps / base64 / utf-8 / repr of constants / SHA-256 injective.",
+        "technique": "contract-based deductive verification: own VC generator over the real source + z3/cvc5",
+    },
+    "C03": {
+        "level": "MementoFunction._recompute_version (the real source, loop invariant over any number of rules) is proved to return the digest of the rule hashes taken in the canonical order of the collected "
+                 "SET of rules (sorted), skipping rules without a hash -- a function of the set, not of the order in which rules were met. _stable_repr, the rendering of non-code constants in the code "
+                 "hash, is proved independent of the process hash seed under the stated value table (repr of plain constants is seed free, iteration order of a frozenset is not, sorting the image "
+                 "removes the dependence), tuples and frozensets recursively through the function's own contract; hash_if_code_object is proved to render every non-code constant through it. The "
+                 "environment salt is checked (syntactically, on the module constant) to be sha256(json.dumps(<dict of literals>, sort_keys=True)).",
+        "note": "Partial: seed independence is checked on value terms (lists built by comprehensions / sorted carry their value) by substituting a second seed -- a relational argument encoded in one run; "
+                "the bag lemma and the repr value table are trusted. Uniqueness of rule keys and the order-independence of the recursive dependency traversal (collect_transitive_dependencies) are not "
+                "claimed; cross-process reuse follows only given the same collected rule set. One genuine defect found by this contract was repaired in /repo (D10).",
+        "technique": "contract-based deductive verification: own VC generator over the real source + z3/cvc5 (plus one syntactic obligation on a module constant)",
+    },
 }
